@@ -2,9 +2,10 @@
 # usage: tools/try_mutant.sh <patch.diff> <prop> [more props...]   -- applies the patch to /repo, runs the checks, reverts
 patch="$1"; shift
 cd /repo || exit 2
+[ -z "$(git status --porcelain)" ] || { echo "/repo is not clean: commit or stash first"; exit 2; }
 git apply "$patch" || { echo "patch does not apply"; exit 2; }
 for p in "$@"; do
   (cd /verif && VERIF_SEED=${VERIF_SEED:-3} ./check "$p" 2>&1 | grep -E "VIOLATION|KNOWN|rc=|INFRA" | cut -c1-260)
 done
-git -C /repo checkout -- . 
+git -C /repo checkout -- .
 git -C /repo status --short | head -3
